@@ -166,3 +166,18 @@ pub fn c06_l3_cross_substitution() {
     assert!(r.open_in_place_detached(&mut b[..l0], &a0[..al0], &t0).is_ok());
     assert!(b == p0);
 }
+
+//@h name=c06_l4_tag_extension tier=quick mode=full also=C12,C13 timeout=600 desc="a detached tag with bytes removed or appended cannot even be presented to the in-place opening interfaces: AeadTag::from_bytes of anything but exactly 16 bytes is rejected (model AEAD tag type, same generic code as the real ones), so an extended tag never reaches open_in_place_detached" bounds="length 0..=34 symbolic (!= 16), contents symbolic; all default checks"
+#[kani::proof]
+#[kani::unwind(4)]
+pub fn c06_l4_tag_extension() {
+    let b: [u8; 34] = kani::any();
+    let n = any_len(34);
+    kani::assume(n != 16);
+    match AeadTag::<AI>::from_bytes(&b[..n]) {
+        Err(HpkeError::IncorrectInputLength(e, g)) => assert!(e == 16 && g == n),
+        _ => assert!(false, "a tag of the wrong length was accepted"),
+    }
+    kani::cover!(n == 17, "one byte appended");
+    kani::cover!(n == 15, "one byte removed");
+}
